@@ -18,59 +18,101 @@ namespace GoModel
 
 def loop_Hash.loopVar : Int := 1
 def loop_Hash.carried : List Nat := [2]
-def loop_Hash.init : Option Int := some 4294967295
+def loop_Hash.regInit : Option Int := some 4294967295
+def loop_Hash.pre : List GoSem.Stmt := [
+    .set 2 (.lit 4294967295),
+    .set 3 (.len 0)]
+def loop_Hash.init : List GoSem.Stmt := [
+    .set 1 (.lit 0)]
+def loop_Hash.cond : GoSem.Cond := (.lt (.var 1) (.var 3))
+def loop_Hash.post : List GoSem.Stmt := [
+    .set 1 (.bin .add .i64 (.var 1) (.lit 1))]
 def loop_Hash.body : List GoSem.Stmt := [
-    .set 3 (.idx 0 (.var 1)),
-    .set 2 (.bin .bxor .u32 (.bin .shr .u32 (.var 2) (.lit 8)) (.conv .u32 (.conv .i32 (.idx 1000 (.conv .u8 (.bin .bxor .u32 (.var 2) (.conv .u32 (.var 3))))))))]
+    .set 4 (.idx 0 (.var 1)),
+    .set 2 (.bin .bxor .u32 (.bin .shr .u32 (.var 2) (.lit 8)) (.conv .u32 (.conv .i32 (.idx 1000 (.conv .u8 (.bin .bxor .u32 (.var 2) (.conv .u32 (.var 4))))))))]
 def loop_Hash.after : List GoSem.Stmt := [
     .set 2 (.bin .bxor .u32 (.var 2) (.lit 4294967295)),
     .ret (.conv .i32 (.var 2))]
 def loop_Hash.header : List String := ["#1 := 0", "#1 < len(#0)", "#1++"]
-def loop_Hash.names : List (String × Nat) := [("bytes", 0), ("i", 1), ("crc", 2), ("b", 3)]
+def loop_Hash.names : List (String × Nat) := [("bytes", 0), ("i", 1), ("crc", 2), ("sz", 3), ("b", 4)]
 
 def loop_Hash64.loopVar : Int := 1
 def loop_Hash64.carried : List Nat := [2]
-def loop_Hash64.init : Option Int := some 18446744073709551615
+def loop_Hash64.regInit : Option Int := some 18446744073709551615
+def loop_Hash64.pre : List GoSem.Stmt := [
+    .set 2 (.lit 18446744073709551615),
+    .set 3 (.len 0)]
+def loop_Hash64.init : List GoSem.Stmt := [
+    .set 1 (.lit 0)]
+def loop_Hash64.cond : GoSem.Cond := (.lt (.var 1) (.var 3))
+def loop_Hash64.post : List GoSem.Stmt := [
+    .set 1 (.bin .add .i64 (.var 1) (.lit 1))]
 def loop_Hash64.body : List GoSem.Stmt := [
-    .set 3 (.idx 0 (.var 1)),
-    .set 2 (.bin .bxor .u64 (.bin .shr .u64 (.var 2) (.lit 8)) (.conv .u64 (.conv .i32 (.idx 1000 (.conv .u8 (.bin .bxor .u64 (.var 2) (.conv .u64 (.var 3))))))))]
+    .set 4 (.idx 0 (.var 1)),
+    .set 2 (.bin .bxor .u64 (.bin .shr .u64 (.var 2) (.lit 8)) (.conv .u64 (.conv .i32 (.idx 1000 (.conv .u8 (.bin .bxor .u64 (.var 2) (.conv .u64 (.var 4))))))))]
 def loop_Hash64.after : List GoSem.Stmt := [
     .set 2 (.bin .bxor .u64 (.var 2) (.lit 18446744073709551615)),
     .ret (.conv .i64 (.var 2))]
 def loop_Hash64.header : List String := ["#1 := 0", "#1 < len(#0)", "#1++"]
-def loop_Hash64.names : List (String × Nat) := [("bytes", 0), ("i", 1), ("crc", 2), ("b", 3)]
+def loop_Hash64.names : List (String × Nat) := [("bytes", 0), ("i", 1), ("crc", 2), ("sz", 3), ("b", 4)]
 
 def loop_Hash64v2.loopVar : Int := 1
 def loop_Hash64v2.carried : List Nat := [2]
-def loop_Hash64v2.init : Option Int := some 18446744073709551615
+def loop_Hash64v2.regInit : Option Int := some 18446744073709551615
+def loop_Hash64v2.pre : List GoSem.Stmt := [
+    .retIf (.isNil 0) (.lit 0),
+    .set 2 (.lit 18446744073709551615),
+    .set 3 (.len 0)]
+def loop_Hash64v2.init : List GoSem.Stmt := [
+    .set 1 (.lit 0)]
+def loop_Hash64v2.cond : GoSem.Cond := (.lt (.var 1) (.var 3))
+def loop_Hash64v2.post : List GoSem.Stmt := [
+    .set 1 (.bin .add .i64 (.var 1) (.lit 1))]
 def loop_Hash64v2.body : List GoSem.Stmt := [
-    .set 3 (.idx 0 (.var 1)),
+    .set 4 (.idx 0 (.var 1)),
     .set 2 (.bin .shr .u64 (.var 2) (.lit 8)),
-    .set 4 (.conv .u64 (.idx 1000 (.conv .u8 (.bin .bxor .i32 (.conv .i32 (.var 2)) (.conv .i32 (.var 3)))))),
-    .set 5 (.conv .u64 (.idx 1000 (.conv .u8 (.bin .bxor .i32 (.conv .i32 (.bin .shr .u64 (.var 2) (.lit 32))) (.conv .i32 (.var 3)))))),
-    .set 2 (.bin .bxor .u64 (.var 2) (.bin .band .u64 (.var 4) (.lit 4294967295))),
-    .set 2 (.bin .bxor .u64 (.var 2) (.bin .shl .u64 (.var 5) (.lit 32)))]
+    .set 5 (.conv .u64 (.idx 1000 (.conv .u8 (.bin .bxor .i32 (.conv .i32 (.var 2)) (.conv .i32 (.var 4)))))),
+    .set 6 (.conv .u64 (.idx 1000 (.conv .u8 (.bin .bxor .i32 (.conv .i32 (.bin .shr .u64 (.var 2) (.lit 32))) (.conv .i32 (.var 4)))))),
+    .set 2 (.bin .bxor .u64 (.var 2) (.bin .band .u64 (.var 5) (.lit 4294967295))),
+    .set 2 (.bin .bxor .u64 (.var 2) (.bin .shl .u64 (.var 6) (.lit 32)))]
 def loop_Hash64v2.after : List GoSem.Stmt := [
     .set 2 (.bin .bxor .u64 (.var 2) (.lit 18446744073709551615)),
     .ret (.conv .i64 (.var 2))]
 def loop_Hash64v2.header : List String := ["#1 := 0", "#1 < len(#0)", "#1++"]
-def loop_Hash64v2.names : List (String × Nat) := [("bytes", 0), ("i", 1), ("crc", 2), ("b", 3), ("n1", 4), ("n2", 5)]
+def loop_Hash64v2.names : List (String × Nat) := [("bytes", 0), ("i", 1), ("crc", 2), ("sz", 3), ("b", 4), ("n1", 5), ("n2", 6)]
 
 def loop_Hash64V2.loopVar : Int := 1
 def loop_Hash64V2.carried : List Nat := [2]
-def loop_Hash64V2.init : Option Int := some 18446744073709551615
+def loop_Hash64V2.regInit : Option Int := some 18446744073709551615
+def loop_Hash64V2.pre : List GoSem.Stmt := [
+    .set 3 (.len 0),
+    .retIf (.eq (.var 3) (.lit 0)) (.lit 0),
+    .set 2 (.lit 18446744073709551615)]
+def loop_Hash64V2.init : List GoSem.Stmt := [
+    .set 1 (.lit 0)]
+def loop_Hash64V2.cond : GoSem.Cond := (.lt (.var 1) (.var 3))
+def loop_Hash64V2.post : List GoSem.Stmt := [
+    .set 1 (.bin .add .i64 (.var 1) (.lit 1))]
 def loop_Hash64V2.body : List GoSem.Stmt := [
     .set 2 (.bin .shr .u64 (.var 2) (.lit 8)),
-    .set 3 (.idx 0 (.var 1)),
-    .set 4 (.conv .u64 (.idx 1000 (.bin .band .u8 (.bin .bxor .u8 (.conv .u8 (.var 2)) (.var 3)) (.lit 255)))),
-    .set 5 (.conv .u64 (.idx 1000 (.bin .band .u8 (.bin .bxor .u8 (.conv .u8 (.bin .shr .u64 (.var 2) (.lit 32))) (.var 3)) (.lit 255)))),
-    .set 2 (.bin .bxor .u64 (.var 2) (.bin .band .u64 (.var 4) (.lit 4294967295))),
-    .set 2 (.bin .bxor .u64 (.var 2) (.bin .shl .u64 (.var 5) (.lit 32)))]
+    .set 4 (.idx 0 (.var 1)),
+    .set 5 (.conv .u64 (.idx 1000 (.bin .band .u8 (.bin .bxor .u8 (.conv .u8 (.var 2)) (.var 4)) (.lit 255)))),
+    .set 6 (.conv .u64 (.idx 1000 (.bin .band .u8 (.bin .bxor .u8 (.conv .u8 (.bin .shr .u64 (.var 2) (.lit 32))) (.var 4)) (.lit 255)))),
+    .set 2 (.bin .bxor .u64 (.var 2) (.bin .band .u64 (.var 5) (.lit 4294967295))),
+    .set 2 (.bin .bxor .u64 (.var 2) (.bin .shl .u64 (.var 6) (.lit 32)))]
 def loop_Hash64V2.after : List GoSem.Stmt := [
     .set 2 (.bin .bxor .u64 (.var 2) (.lit 18446744073709551615)),
     .ret (.conv .i64 (.var 2))]
 def loop_Hash64V2.header : List String := ["#1 := 0", "#1 < len(#0)", "#1++"]
-def loop_Hash64V2.names : List (String × Nat) := [("bytes", 0), ("i", 1), ("crc", 2), ("b", 3), ("n1", 4), ("n2", 5)]
+def loop_Hash64V2.names : List (String × Nat) := [("bytes", 0), ("i", 1), ("crc", 2), ("sz", 3), ("b", 4), ("n1", 5), ("n2", 6)]
+
+def fn_HashAddr : GoSem.Fn :=
+  { params := [], result := .i64, body := [
+    .setIf (.oneOf (.len 0) [4]) 2 (.var 1),
+    .retIf (.oneOf (.len 0) [4]) (.bin .mul .i64 (.conv .i64 (.var 2)) (.conv .i64 (.var 2))),
+    .retIf (.oneOf (.len 0) [8]) (.var 3),
+    .ret (.conv .i64 (.var 4))] }
+def fn_HashAddr.names : List (String × Nat) := [("src", 0), ("ToInt(src)", 1), ("c", 2), ("ToLong(src)", 3), ("Hash(src)", 4)]
 
 def fn_ToInt : GoSem.Fn :=
   { params := [], result := .i32, body := [
@@ -101,9 +143,14 @@ def wrapper_GetLongHash : String × Option Int := ("Hash64v2", some 0)
 
 def loop_HashCode.loopVar : Int := 1
 def loop_HashCode.carried : List Nat := [2]
-def loop_HashCode.init : Option Int := some 0
+def loop_HashCode.regInit : Option Int := some 0
 def loop_HashCode.pre : List GoSem.Stmt := [
     .set 2 (.lit 0)]
+def loop_HashCode.init : List GoSem.Stmt := [
+    .set 1 (.lit 0)]
+def loop_HashCode.cond : GoSem.Cond := (.lt (.var 1) (.len 0))
+def loop_HashCode.post : List GoSem.Stmt := [
+    .set 1 (.bin .add .i64 (.var 1) (.lit 1))]
 def loop_HashCode.body : List GoSem.Stmt := [
     .set 2 (.bin .add .i64 (.bin .mul .i64 (.lit 31) (.var 2)) (.conv .i64 (.idx 0 (.var 1))))]
 def loop_HashCode.after : List GoSem.Stmt := [
@@ -151,14 +198,26 @@ def fn_findc : GoSem.Fn :=
     .retIf (.and (.le (.lit 65) (.var 0)) (.le (.var 0) (.lit 90))) (.conv .i64 (.bin .add .i64 (.bin .sub .i64 (.var 0) (.lit 65)) (.lit 10))),
     .ret (.lit 0)] }
 
+def tree_ToString32 : GoSem.STree :=
+  (.ite (.lt (.var 0) (.lit 0)) (.ite (.eq (.var 0) (.lit (-9223372036854775808))) (.ret (.lit "z8000000000000")) (.ret (.cat (.lit "z") (.toStr (.neg .i64 (.var 0)))))) (.ite (.lt (.var 0) (.lit 10)) (.ret (.itoa (.conv .i64 (.var 0)))) (.ret (.cat (.lit "x") (.toStr (.var 0))))))
+def tree_ToString32.names : List (String × Nat) := [("num", 0)]
+
+def tree_ToLong32 : GoSem.DTree :=
+  (.ite .isEmpty (.ret (.const 0)) (.ite (.firstIs 122) (.ite (.eqLit "z8000000000000") (.ret (.const (-9223372036854775808))) (.ret (.mulToLongTail (-1)))) (.ite (.firstIs 120) (.ret (.mulToLongTail 1)) (.ret (.atoiOr 0)))))
+
 def loop_murmurHash.loopVar : Int := 3
 def loop_murmurHash.carried : List Nat := [4]
-def loop_murmurHash.init : Option Int := none
+def loop_murmurHash.regInit : Option Int := none
 def loop_murmurHash.pre : List GoSem.Stmt := [
     .set 5 (.lit 1540483477),
     .set 6 (.lit 24),
     .set 4 (.bin .bxor .u32 (.var 2) (.conv .u32 (.var 1))),
     .set 7 (.bin .shr .u32 (.conv .u32 (.var 1)) (.lit 2))]
+def loop_murmurHash.init : List GoSem.Stmt := [
+    .set 3 (.lit 0)]
+def loop_murmurHash.cond : GoSem.Cond := (.lt (.var 3) (.conv .i64 (.var 7)))
+def loop_murmurHash.post : List GoSem.Stmt := [
+    .set 3 (.bin .add .i64 (.var 3) (.lit 1))]
 def loop_murmurHash.body : List GoSem.Stmt := [
     .set 8 (.bin .shl .i64 (.var 3) (.lit 2)),
     .set 9 (.conv .u32 (.idx 0 (.bin .add .i64 (.var 8) (.lit 3)))),
@@ -189,12 +248,17 @@ def loop_murmurHash.names : List (String × Nat) := [("data", 0), ("length", 1),
 
 def loop_murmurHashLong.loopVar : Int := 3
 def loop_murmurHashLong.carried : List Nat := [4]
-def loop_murmurHashLong.init : Option Int := none
+def loop_murmurHashLong.regInit : Option Int := none
 def loop_murmurHashLong.pre : List GoSem.Stmt := [
     .set 5 (.lit 14313749767032793493),
     .set 6 (.lit 47),
     .set 4 (.bin .bxor .u64 (.conv .u64 (.bin .band .u32 (.var 2) (.lit 4294967295))) (.bin .mul .u64 (.conv .u64 (.var 1)) (.var 5))),
     .set 7 (.bin .quo .i32 (.var 1) (.lit 8))]
+def loop_murmurHashLong.init : List GoSem.Stmt := [
+    .set 3 (.lit 0)]
+def loop_murmurHashLong.cond : GoSem.Cond := (.lt (.var 3) (.conv .i64 (.var 7)))
+def loop_murmurHashLong.post : List GoSem.Stmt := [
+    .set 3 (.bin .add .i64 (.var 3) (.lit 1))]
 def loop_murmurHashLong.body : List GoSem.Stmt := [
     .set 8 (.bin .mul .i64 (.var 3) (.lit 8)),
     .set 9 (.bin .add .u64 (.bin .add .u64 (.bin .add .u64 (.bin .add .u64 (.bin .add .u64 (.bin .add .u64 (.bin .add .u64 (.bin .band .u64 (.conv .u64 (.idx 0 (.bin .add .i64 (.var 8) (.lit 0)))) (.lit 255)) (.bin .shl .u64 (.bin .band .u64 (.conv .u64 (.idx 0 (.bin .add .i64 (.var 8) (.lit 1)))) (.lit 255)) (.lit 8))) (.bin .shl .u64 (.bin .band .u64 (.conv .u64 (.idx 0 (.bin .add .i64 (.var 8) (.lit 2)))) (.lit 255)) (.lit 16))) (.bin .shl .u64 (.bin .band .u64 (.conv .u64 (.idx 0 (.bin .add .i64 (.var 8) (.lit 3)))) (.lit 255)) (.lit 24))) (.bin .shl .u64 (.bin .band .u64 (.conv .u64 (.idx 0 (.bin .add .i64 (.var 8) (.lit 4)))) (.lit 255)) (.lit 32))) (.bin .shl .u64 (.bin .band .u64 (.conv .u64 (.idx 0 (.bin .add .i64 (.var 8) (.lit 5)))) (.lit 255)) (.lit 40))) (.bin .shl .u64 (.bin .band .u64 (.conv .u64 (.idx 0 (.bin .add .i64 (.var 8) (.lit 6)))) (.lit 255)) (.lit 48))) (.bin .shl .u64 (.bin .band .u64 (.conv .u64 (.idx 0 (.bin .add .i64 (.var 8) (.lit 7)))) (.lit 255)) (.lit 56))),
